@@ -30,7 +30,7 @@ static void judge_pair(H3Index a, H3Index b, int64_t bfs /* -1 unknown */, uint6
             vf_violation_spec(spec, "distance", "gridDistance", okey ^ vf_mix(b) ^ 21, "", "gridDistance(%016" PRIx64 ", %016" PRIx64 ")=%" PRId64 " for %s cells", a, b, d, a == b ? "identical" : "different");
         else if (!vf_cell_load(a, &ca) && !vf_cell_load(b, &cb)) {
             ld gc = acosl(fminl(1.0L, fmaxl(-1.0L, v3_dot(ca.c, cb.c)))), w = ca.width > cb.width ? ca.width : cb.width;
-            if (d >= 0 && (ld)d * 4 * w < gc)
+            if (a != b && d >= 0 && (ld)d * 4 * w + 1e-12L < gc)
                 vf_violation_spec(spec, "distance", "gridDistance", okey ^ vf_mix(b) ^ 22, "", "gridDistance(%016" PRIx64 ", %016" PRIx64 ")=%" PRId64 " but the centres are %.3Lg rad apart, more than %" PRId64 " steps of 4 cell widths (%.3Lg rad) can bridge", a, b, d, gc, d, w);
             n_geo_bound++;
         }
